@@ -68,7 +68,7 @@ def run_tlc(module, cfg_text, workers=NCPU, env=None, timeout=3600, heap="6g",
             f.write(cfg_text)
         cmd = ["java"]
         cmd += ["-XX:+UseSerialGC"] if serial_gc else ["-XX:+UseParallelGC", f"-XX:ParallelGCThreads={max(2, min(4, workers))}"]
-        cmd += [f"-Xmx{heap}", "-cp", JAR, "tlc2.TLC", "-workers", str(workers),
+        cmd += [f"-Djava.io.tmpdir={sd}", f"-Xmx{heap}", "-cp", JAR, "tlc2.TLC", "-workers", str(workers),
                 "-metadir", os.path.join(sd, "meta"), "-noGenerateSpecTE", "-config", cfgp]
         if simulate:
             cmd += ["-simulate", simulate]
